@@ -6,3 +6,11 @@ package pipeline
 
 // VerifOffsetsCurrent returns the current offset carried by an Offsets value.
 func VerifOffsetsCurrent(o Offsets) int64 { return o.current }
+
+// VerifBatchFirst returns the first event of a batch (parents and children included), or nil.
+func VerifBatchFirst(b *Batch) *Event {
+	if len(b.events) == 0 {
+		return nil
+	}
+	return b.events[0]
+}
